@@ -70,7 +70,10 @@ def main(argv):
     for i in insts:
         if i.status in ('ok', 'violation') or (i.status == 'note' and i.nontrivial):
             by_rule[i.rule] = by_rule.get(i.rule, 0) + 1
+    failed_rules = {i.rule for i in insts if i.key.endswith('|analysis failed')}
     for rule, floor in spec.get('floors', {}).items():
+        if rule in failed_rules:
+            continue   # the rule has no verdict on this tree (recorded as a note); its floor says nothing
         if by_rule.get(rule, 0) < floor:
             viol.append(report.Inst(rule, '%s|floor' % rule, 'violation', '',
                                     'only %d instances evaluated, floor is %d (anchors lost?)' % (by_rule.get(rule, 0), floor),
